@@ -6558,6 +6558,11 @@ class SSHServerConnection(SSHConnection):
         else:
             result = True
 
+        if not self._transport:
+            # The connection was closed while the request was in progress
+            listener.close()
+            return
+
         self.logger.info('Created TCP listener on %s',
                          (listen_host, listen_port))
 
@@ -6690,6 +6695,11 @@ class SSHServerConnection(SSHConnection):
                              'application', listen_path)
 
             self._report_global_response(False)
+            return
+
+        if not self._transport:
+            # The connection was closed while the request was in progress
+            cast(SSHListener, listener).close()
             return
 
         self.logger.info('Created UNIX listener on %s', listen_path)
